@@ -53,7 +53,8 @@ def run_case(rep, rng, ci, cfg, texts, recs_all):
         opts = runs.make_options(td, solve_time=cfg["steps"] * dt_max, dt_init=dt_init, dt_max=dt_max,
                                  adaptive=cfg["adaptive"], adaptive_window=5, save_every=50, terminal_psi=None,
                                  include_screening=cfg["screening"], screening_tolerance=1e-3)
-        runs.traced_solve(dev, opts, A=0.0, currents=None, on_step=on_step, before_step=before)
+        _, solver_ = runs.traced_solve(dev, opts, A=0.0, currents=None, on_step=on_step, before_step=before)
+        runs.report_threading(rep, solver_, {"run": ci})
     case = {"run": ci, **cfg, "sites": len(dev.mesh.sites), "dt_max": dt_max, "updates": len(dts), **{f"max_{k}": v for k, v in worst.items()}}
     tol = 1e-11
     if worst["psi"] > tol:
